@@ -204,6 +204,38 @@ func c04() []*Ob {
 					}
 				}
 			}},
+		{Prop: "C04", ID: "C04.7", Engine: "ALIAS", Floor: 1,
+			Desc: "the request's id list is read-only for the fetcher: the ids parameter of Fetcher.FetchDocs (docsStream passes a view of the list that doFetch still walks to label the response blocks) reaches no mutating sink — no element store, in-place sort or compaction — through sortIDs, groupIDsByFraction or any other static callee",
+			Check: func(c *Ctx) {
+				fn := c.Fn("(*fracmanager.Fetcher).FetchDocs")
+				if fn == nil {
+					return
+				}
+				var ids *ssa.Parameter
+				for _, p := range fn.Params {
+					if p.Name() == "ids" {
+						ids = p
+					}
+				}
+				if ids == nil {
+					for _, p := range fn.Params {
+						if strings.HasSuffix(p.Type().String(), "seq.IDSource") {
+							ids = p
+						}
+					}
+				}
+				if ids == nil {
+					c.Undecided("alias:FetchDocs:ids", fn.Pos(), "FetchDocs has no id-list parameter any more")
+					return
+				}
+				sinks := c.P.MutatingSinks(ids, 4)
+				if len(sinks) == 0 {
+					c.Site(fn.Pos(), "the caller's id list is only read (copied before sorting and grouping)")
+				}
+				for _, sk := range sinks {
+					c.Violation("alias:FetchDocs:ids:"+FuncName(sk.Instr.Parent()), sk.Instr.Pos(), "the id list passed to FetchDocs is modified in place (%s in %s): the caller still uses it to label the fetched documents, so documents are returned under other ids", sk.How, FuncName(sk.Instr.Parent()))
+				}
+			}},
 		{Prop: "C04", ID: "C04.4", Engine: "DOM+PROV", Floor: 5,
 			Desc: "absent means an empty entry at its own position: GroupDocsOffsets skips DocPosNotFound without touching the groups; FetchDocs writes a fraction's result only at reversPos[id] and only when the document was found; IndexFetch writes res[dst] for grouped positions only; docsStream.Next hands out exactly one element per call",
 			Check: func(c *Ctx) {
@@ -413,7 +445,12 @@ func cacheKeyObligation(c *Ctx) {
 				c.Site(call.Pos(), "%s: cache key is computed (+const, /const) from a value that is at most %d bits wide", FuncName(fn), sizeOfBasic(to)*8)
 				continue
 			}
-			c.Violation("key:"+FuncName(fn)+":"+CallName(call), call.Pos(), "%s uses %s(%s) as cache key: two values that differ only above bit %d share a cache entry (for a docs file larger than 4 GiB another block's bytes are returned)", FuncName(fn), to.Name(), divisorName(cv.X), sizeOfBasic(to)*8)
+			// the construct is the cache that is keyed (owner type and field), not the function the call sits in
+			where := FuncName(fn)
+			if of := ownerField(Receiver(call)); of != "" {
+				where = of
+			}
+			c.Violation("key:"+where+":"+CallName(call), call.Pos(), "%s uses %s(%s) as cache key: two values that differ only above bit %d share a cache entry (for a docs file larger than 4 GiB another block's bytes are returned)", FuncName(fn), to.Name(), divisorName(cv.X), sizeOfBasic(to)*8)
 		}
 	}
 }
@@ -517,4 +554,31 @@ func stripConvs(v ssa.Value) ssa.Value {
 			return v
 		}
 	}
+}
+
+// ownerField names the struct field a value was loaded from ("disk.DocsReader.cache"), or "".
+func ownerField(v ssa.Value) string {
+	for i := 0; v != nil && i < 6; i++ {
+		switch x := v.(type) {
+		case *ssa.UnOp:
+			v = x.X
+		case *ssa.FieldAddr:
+			t, f, _, ok := FieldOf(x)
+			if ok {
+				return t + "." + f
+			}
+			return ""
+		case *ssa.Field:
+			t, f, _, ok := FieldOf(x)
+			if ok {
+				return t + "." + f
+			}
+			return ""
+		case *ssa.ChangeType:
+			v = x.X
+		default:
+			return ""
+		}
+	}
+	return ""
 }
